@@ -152,7 +152,7 @@ def run(tier: str, seed: int):
     units = []
     if tier == "quick":
         units += [("graphs", u, 1) for u in units_for({"E": 4})]
-        s1 = list(skeleton_sources(1, "marked"))
+        s1 = list(skeleton_sources(1, "marked")) + list(skeleton_sources(1, "bare"))
         units += [("progs", s1[i:i + 8], 1) for i in range(0, len(s1), 8)]
     else:
         units += [("graphs", u, 2) for u in units_for({"E": 4})]
